@@ -672,7 +672,9 @@ var heldInText = regexp.MustCompile(`\bw?held\(`)
 // execution does continue only if the mutex was free.
 func lockDisciplineObl(o *Obligation) bool {
 	switch o.Kind {
-	case "race-read", "race-write", "immutable-write":
+	case "race-read", "race-write", "immutable-write", "lock-balance", "lock-balance-loop", "frame-loop", "frame":
+		// (balance and frame obligations are about the state reached: assuming them cannot be justified by
+		// "the execution stops otherwise" either)
 		return true
 	}
 	if strings.HasPrefix(o.Kind, "pre@") && heldInText.MatchString(o.ID) {
